@@ -8,7 +8,7 @@ RULE = ("1-3-D objects; four axis kinds (ascending, descending, non-uniform asce
         "11-point float grid inside and outside the axis range, every (lo,hi) pair of that grid, all slices with "
         "start/stop in {None,-3..3} and step in {None,1,2,-1,-2} (thorough; a seeded sample in quick), selector pairs on "
         "two dims at once, and the same selectors through __setitem__; non-trivial = range/float/slice selector or >=2 "
-        "selectors; distinct by canonical stream")
+        "selectors; the same axis and selectors at scales 1e-9 … 1e9 and with integer / float coordinate dtype must select the same positions; distinct by canonical stream")
 
 
 def axis(kind, n):
@@ -108,8 +108,57 @@ def dtype_independence(tier, seed):
     return fails, n_eval
 
 
+def scale_independence(tier, seed):
+    """the UNIT of an axis must not matter: the same axis (uniform and non-uniform, ascending and descending) expressed at
+    scales 1e-9 … 1e9, with every selector target scaled alike, selects the same positions — float, 1-tuple and (lo, hi)
+    selectors, reading and writing.  Targets keep clear of midpoints, so rounding of the scaled numbers cannot move a nearest
+    position."""
+    import numpy as np
+    from common import dnp
+    fails, n_eval = [], 0
+    axes = {"nonuniform": np.array([0.0, 1.0, 2.0, 4.0, 7.0, 11.0]), "uniform": np.arange(7.0) * 2.0,
+            "nonuniform-desc": np.array([11.0, 7.0, 4.0, 2.0, 1.0, 0.0]), "almost-uniform": np.array([0.0, 1.0, 2.0, 3.0, 4.1, 5.0, 6.0])}
+    targets = [-20.0, -0.3, 0.2, 1.3, 2.8, 3.3, 5.0, 5.8, 6.2, 8.0, 9.4, 10.7, 12.2, 30.0]
+    for aname, ax in axes.items():
+        vals = np.arange(len(ax) * 2, dtype=float).reshape(len(ax), 2)
+        sels = [t for t in targets] + [(t,) for t in targets[1::3]] + [(a, b) for a in targets[::3] for b in targets[1::3]]
+        ref = None
+        for scale in (1.0, 1e-9, 1e-6, 1e-3, 1e3, 1e9):
+            outs = []
+            for sel in sels:
+                ss = tuple(t * scale for t in sel) if isinstance(sel, tuple) else sel * scale
+                d = dnp.DNPData(vals.copy(), ["x", "y"], [ax * scale, np.arange(2.0)])
+                w = d.copy()
+                try:
+                    r = d["x", ss]
+                    w["x", ss] = -1.0
+                    outs.append((np.asarray(r.values).tolist(), np.asarray(w.values).tolist()))
+                except Exception as e:  # noqa: BLE001
+                    outs.append(("raise", type(e).__name__))
+                n_eval += 1
+            if ref is None:
+                ref = outs
+                continue
+            for sel, o, r0 in zip(sels, outs, ref):
+                if o != r0:
+                    kind = "range" if isinstance(sel, tuple) and len(sel) == 2 else "tuple1" if isinstance(sel, tuple) else "float"
+                    key = "C05:selection-depends-on-axis-scale:%s:%s" % (kind, aname)
+                    fails.append({"key": key, "clause": key, "ops": [{"axis": (ax * scale).tolist(), "scale": scale,
+                                                                      "selector": [t * scale for t in sel] if isinstance(sel, tuple) else sel * scale}]})
+                    break
+    seen, uniq = set(), []
+    for f in fails:
+        if f["key"] not in seen:
+            seen.add(f["key"]); uniq.append(f)
+    return uniq, n_eval
+
+
 def run(tier, seed, escalate=False):
     res = P.run(tier, seed, escalate)
+    f2, n2 = scale_independence(tier, seed)
+    res["impl_failures"] += [f for f in f2 if f["key"] not in {g["key"] for g in res["impl_failures"]}]
+    res["evaluations"] += n2
+    res["distribution"]["axis_scale_cases"] = n2
     fails, n_eval = dtype_independence(tier, seed)
     seen = {f["key"] for f in res["impl_failures"]}
     for f in fails:
